@@ -144,6 +144,19 @@ CHECKS = {
              "robust-mode clauses 'finite curve', 'linear preserved' are checked on the implementation and by the bit-exact tie, not "
              "proved. Axioms: real-number axioms for the two theorems over R; the carrier-generic ones are closed.",
         technique="Coq proof (scan invariants, carrier-generic placeholder independence) + bit-exact correspondence with oracle tables"),
+    "C02": dict(
+        cat="proof",
+        text="Theorems (Props/C02.v): for every carrier whose equality test tells 0 from 1 (reals, rationals, binary64 incl. NaN/inf "
+             "placeholders) the fixed-lambda and the cross-validation smoothers (robust or not, with or without envelope) return the "
+             "same band and lambda for any two encodings of the same cells; over the reals the three V-curve smoothers do too; the curve is "
+             "defined at every cell (gap fill); fewer than 2 (5 for cross-validation) valid cells pass through. On the implementation every "
+             "series is encoded with nodata below / inside / above the data range, NaN and +-inf and all encodings must give one band and "
+             "one lambda, for all 9 variant configurations; every encoding is also compared bit-for-bit with the models.",
+        ref="7 (C02)",
+        note="Trusted: Coq kernel + vm_compute; harness; V-curve placeholder independence is proved in exact arithmetic (in binary64 a "
+             "finite placeholder times weight 0 is an exact zero - observed on the implementation). Out-of-int16 curves are dropped and "
+             "counted. Axioms: real-number axioms for the V-curve theorem; the carrier-generic theorems are closed.",
+        technique="Coq proof (carrier-generic structural independence + exact-arithmetic independence lemmas) + metamorphic runs + bit-exact correspondence"),
 }
 
 PENDING = "no check has been built for this property yet (work in progress; see DESIGN.md section 7 for the plan)"
